@@ -2,6 +2,7 @@ package checks
 
 import (
 	"bytes"
+	crand "crypto/rand"
 	"encoding/json"
 	"fmt"
 	"os"
@@ -34,6 +35,10 @@ var c02Alphabet = []string{
 
 // c02Deep is the adversary-only alphabet of the deep exploration around rejected SRP public keys.
 var c02Deep = []string{"X:M1", "X:M3-A-zero", "X:M3-A-zero-proof-for-empty-key", "X:M5-zero-key", "X:M5-hkdf-empty-S", "X:M3-A-N"}
+
+type failingReader struct{}
+
+func (failingReader) Read([]byte) (int, error) { return 0, fmt.Errorf("entropy source unavailable") }
 
 type c02Conn struct {
 	k     *refctl.Ctl
@@ -105,7 +110,18 @@ func (r *c02Run) step(ev string) bool {
 		return false
 	}
 	op := parts[1]
+	// "+rand-fails": while this one message is handled the accessory's source of randomness reports an error (an
+	// environment answer like any other; the accessory runs in this process)
+	randFails := false
+	if base, ok := strings.CutSuffix(op, "+rand-fails"); ok {
+		op, randFails = base, true
+	}
 	post := func(body []byte) (*refctl.Msg, error) {
+		if randFails {
+			saved := crand.Reader
+			crand.Reader = failingReader{}
+			defer func() { crand.Reader = saved }()
+		}
 		m, _, err := cn.k.Do("POST", "/pair-setup", refctl.CTPairing, body)
 		if err != nil {
 			cn.dead = true
@@ -634,6 +650,19 @@ func c02Run1(c *fw.Ctx) {
 		c02Exec(c, hist)
 		return false
 	})
+	// the deep alphabet plus two verify requests during which the accessory's randomness fails, one level shallower
+	deepR := append(append([]string{}, c02Deep...), "X:M3-A-zero+rand-fails", "X:M3-A-N+rand-fails")
+	exploreTree(c, len(deepR), dd-1, func(h []int) bool {
+		if len(h) < dd-1 {
+			return false
+		}
+		var hist []string
+		for _, s := range h {
+			hist = append(hist, deepR[s])
+		}
+		c02Exec(c, hist)
+		return false
+	})
 	// from the non-initial state "L has paired": every adversary history over the replay alphabet
 	post := []string{"X:M1", "X:M3-replay-L", "X:M5-replay-L", "X:M3-wrong-code", "X:M5-zero-key", "X:M3-A-zero", "L2:M5-of-L"}
 	pd := 2
@@ -689,7 +718,7 @@ func init() {
 	fw.Register(&fw.Check{
 		ID:    "C02",
 		Level: "model_checking",
-		Rule:  "every history of length 3 (quick, 23 symbols) / 4 (thorough, 28 symbols), plus every adversary-only history of length 5 (quick) / 7 (thorough) over 6 symbols around rejected SRP public keys, plus — from the non-initial state 'L has completed pairing' — every adversary history of length 2 (quick) / 3 (thorough) over 7 replay symbols, and — from the state 'L has proved the code and not yet exchanged keys' — every history of length 2 / 3 over the whole alphabet; successive systems of a worker process rotate through three setup codes (one above 2^26) and the adversary's wrong code is another one of them, over the pair-setup alphabet on a legitimate connection L (knows the code) and an adversary connection X (sees all bytes, owns its keys, does not know the code): start; verify with right code, wrong code, A = 0 / N / 2N, proof missing, A missing, L's verify replayed, A = 0 with the proof for an empty session key; key-exchange genuine, L's genuine key-exchange delivered on another connection, sealed under the all-zero key / HKDF of an empty secret / the wrong-code secret / a random key, sealed under the all-zero key and presenting the neutral group element as long-term key with the signature that key accepts for every message, 0- and 15-byte payloads, tag flipped, L's key-exchange replayed; unknown method and states; reopen. Real transport over TCP with real SRP; a fresh system per history; after EVERY event the stored pairings (read through the database) must equal the model: the accessory's own entity plus exactly (L's id, L's key) iff L completed start → right-code verify → genuine key-exchange consecutively on its connection; proofs and M6 payloads must appear only when the model allows; the proof for the configured code directly after an accepted start is accepted; a look-up by name (what pair-verify uses) finds exactly the stored pairings, whatever earlier systems of the process stored. With the second code the legitimate controller has a 124-byte identifier with letters of both cases and bytes that are not valid UTF-8, with the third an identifier that ends in a NUL byte. L's key exchange sealed correctly but cut off inside ends the exchange. From the non-initial state '101 (thorough 300) setup-code proofs were refused', in one system: every adversary history of length 3 over the 6 deep symbols, each on a fresh connection, then L's genuine exchange. A genuine key exchange during which the storage refuses every write (RLIMIT_FSIZE 0) leaves the pairings that existed before in place. Plus interleavings of the real /pair-setup and /pair-verify handlers of two connections under a cooperative scheduler (subprocess built with the overlay; scheduling points = every log statement of the library, every mutex Lock in hap and crypto, and the arrival of each request), iterative preemption bounding to 2 (quick) / 3 (thorough), and once more with a scheduling point before EVERY statement of hc's packages and one preemption: two genuine key exchanges at once, a genuine key exchange next to a paired controller's pair-verify, next to an adversary's requests; after every schedule the stored pairings must be exactly those delivered. states = histories executed (each judges all its prefixes), distinct_nontrivial = distinct (event → response class) pairs",
+		Rule:  "every history of length 3 (quick, 23 symbols) / 4 (thorough, 28 symbols), plus every adversary-only history of length 5 (quick) / 7 (thorough) over 6 symbols around rejected SRP public keys, and of length 4 / 6 over those plus two verify requests during which the accessory's entropy source fails, plus — from the non-initial state 'L has completed pairing' — every adversary history of length 2 (quick) / 3 (thorough) over 7 replay symbols, and — from the state 'L has proved the code and not yet exchanged keys' — every history of length 2 / 3 over the whole alphabet; successive systems of a worker process rotate through three setup codes (one above 2^26) and the adversary's wrong code is another one of them, over the pair-setup alphabet on a legitimate connection L (knows the code) and an adversary connection X (sees all bytes, owns its keys, does not know the code): start; verify with right code, wrong code, A = 0 / N / 2N, proof missing, A missing, L's verify replayed, A = 0 with the proof for an empty session key; key-exchange genuine, L's genuine key-exchange delivered on another connection, sealed under the all-zero key / HKDF of an empty secret / the wrong-code secret / a random key, sealed under the all-zero key and presenting the neutral group element as long-term key with the signature that key accepts for every message, 0- and 15-byte payloads, tag flipped, L's key-exchange replayed; unknown method and states; reopen. Real transport over TCP with real SRP; a fresh system per history; after EVERY event the stored pairings (read through the database) must equal the model: the accessory's own entity plus exactly (L's id, L's key) iff L completed start → right-code verify → genuine key-exchange consecutively on its connection; proofs and M6 payloads must appear only when the model allows; the proof for the configured code directly after an accepted start is accepted; a look-up by name (what pair-verify uses) finds exactly the stored pairings, whatever earlier systems of the process stored. With the second code the legitimate controller has a 124-byte identifier with letters of both cases and bytes that are not valid UTF-8, with the third an identifier that ends in a NUL byte. L's key exchange sealed correctly but cut off inside ends the exchange. From the non-initial state '101 (thorough 300) setup-code proofs were refused', in one system: every adversary history of length 3 over the 6 deep symbols, each on a fresh connection, then L's genuine exchange. A genuine key exchange during which the storage refuses every write (RLIMIT_FSIZE 0) leaves the pairings that existed before in place. Plus interleavings of the real /pair-setup and /pair-verify handlers of two connections under a cooperative scheduler (subprocess built with the overlay; scheduling points = every log statement of the library, every mutex Lock in hap and crypto, and the arrival of each request), iterative preemption bounding to 2 (quick) / 3 (thorough), and once more with a scheduling point before EVERY statement of hc's packages and one preemption: two genuine key exchanges at once, a genuine key exchange next to a paired controller's pair-verify, next to an adversary's requests; after every schedule the stored pairings must be exactly those delivered. states = histories executed (each judges all its prefixes), distinct_nontrivial = distinct (event → response class) pairs",
 		Run:   c02Run1,
 		Replay: func(c *fw.Ctx, raw json.RawMessage) {
 			var pc pschedCase
